@@ -19,8 +19,8 @@ HOSTILE_REF_PARTS = [x.encode() for x in ["é", "日本", "a'b", 'q"t', "x{y}", 
                                            "dollar$", "amp&", "ex!cl", "comma,", "eq=", "at@x", "hash#", "tab", "-dash",
                                            "back`tick", "<lt>", "cov-100%", "%", "%%", "a%\"b", "%s%d%v", "%!", "x%"]] + \
     [b"\xff\xfe", b"\xc3\x28", b"lat\xe9in"]
-SYMBOLS = ["grp", "My Group", "q\"t", "b\\s", "été", "\xff\xfebad", "a\xff", "a\xfe", "x y z", "[1]", "tab\there", "semi;", "#h", "nl\nsym"]
-DISPLAY = ["Nice", "näme", "two  spaces", "| pipe | in | name", "ends with bracket ]", "[1] starts", "mid [2] dle", "\xff\xfe", "a\tb",
+SYMBOLS = ["R\\u0026D", "lt\\u003c", "amp&", "grp", "My Group", "q\"t", "b\\s", "été", "\xff\xfebad", "a\xff", "a\xfe", "x y z", "[1]", "tab\there", "semi;", "#h", "nl\nsym"]
+DISPLAY = ["R\\u0026D dept", "a\\u003eb", "x\\u2028y", "<b>&amp;</b>", "Nice", "näme", "two  spaces", "| pipe | in | name", "ends with bracket ]", "[1] starts", "mid [2] dle", "\xff\xfe", "a\tb",
            "x" * 60, "quote\"s", "new\nline", "* star", "",
            "inj\n|     * y                [7] |     1     |                                |"]
 
@@ -38,9 +38,10 @@ def one_case(arg):
     os.makedirs(d)
     out = {"viol": [], "evals": 0, "sample": None, "hostile": False, "cites": 0, "inconc": []}
     try:
-        prof = rng.choice(["spaces", "quotes", "ctrl", "nonutf8", "revsyntax", "utf8", "lf", "mixed", "long", "percent", "percent"])
+        prof = rng.choice(["spaces", "quotes", "ctrl", "nonutf8", "revsyntax", "utf8", "lf", "mixed", "long", "percent", "percent", "escapes",
+                           "escapes"])
         namegen = (lambda r: G.name_hostile(r, prof)) if prof != "mixed" else (lambda r: G.name_hostile(r, r.choice(
-            ["spaces", "quotes", "ctrl", "nonutf8", "revsyntax", "utf8", "plain", "percent"])))
+            ["spaces", "quotes", "ctrl", "nonutf8", "revsyntax", "utf8", "plain", "percent", "escapes"])))
         pool = G.Pool(rng, namegen)
         m = G.Model()
         commits = G.gen_dag(rng, pool, rng.randint(1, 6), hostile=False)
